@@ -97,14 +97,17 @@ public:
       low = std::max(first_coprime(), low + 1);
       high = std::min(high, y);
 
-      if (low <= high &&
-          min_m <= high)
+      if (low <= high)
       {
         // Default initialize memory to all bits set
         int64_t low_idx = to_index(low);
         int64_t size = (to_index(high) + 1) - low_idx;
         std::fill_n(&factor_[low_idx], size, T_MAX);
+      }
 
+      if (low <= high &&
+          min_m <= high)
+      {
         int64_t start = first_coprime();
         int64_t stop = high / first_coprime();
         primesieve::iterator it(start, stop);
